@@ -56,16 +56,17 @@ func ops() []Op {
 		{"create(t2,B,enabled)", "POST", t, map[string]any{"id": "t2", "type": "stream", "dbrps": DBRP, "script": SB, "status": "enabled"}},
 		{"create(t1,BAD,enabled)", "POST", t, map[string]any{"id": "t1", "type": "stream", "dbrps": DBRP, "script": BAD, "status": "enabled"}},
 		{"create(t1,BATCHX,enabled)", "POST", t, map[string]any{"id": "t1", "type": "batch", "dbrps": DBRP, "script": BATCHX, "status": "enabled"}},
-		{"create(t1,template p1,V1,enabled)", "POST", t, map[string]any{"id": "t1", "template_id": "p1", "dbrps": DBRP, "vars": V1, "status": "enabled"}},
-		{"create(t2,template p1,V2,disabled)", "POST", t, map[string]any{"id": "t2", "template_id": "p1", "dbrps": DBRP, "vars": V2, "status": "disabled"}},
-		{"create(t1,template p1,VBAD,enabled)", "POST", t, map[string]any{"id": "t1", "template_id": "p1", "dbrps": DBRP, "vars": VBAD, "status": "enabled"}},
+		{"create(t1,template p1,V1,enabled)", "POST", t, map[string]any{"id": "t1", "template-id": "p1", "dbrps": DBRP, "vars": V1, "status": "enabled"}},
+		{"create(t2,template p1,V2,disabled)", "POST", t, map[string]any{"id": "t2", "template-id": "p1", "dbrps": DBRP, "vars": V2, "status": "disabled"}},
+		{"create(t1,template p1,VBAD,enabled)", "POST", t, map[string]any{"id": "t1", "template-id": "p1", "dbrps": DBRP, "vars": VBAD, "status": "enabled"}},
 		{"update(t1,script B)", "PATCH", t + "/t1", map[string]any{"script": SB}},
 		{"update(t1,script BAD)", "PATCH", t + "/t1", map[string]any{"script": BAD}},
 		{"update(t1,enabled)", "PATCH", t + "/t1", map[string]any{"status": "enabled"}},
 		{"update(t1,disabled)", "PATCH", t + "/t1", map[string]any{"status": "disabled"}},
 		{"update(t1,id t2)", "PATCH", t + "/t1", map[string]any{"id": "t2"}},
 		{"update(t2,id t1,enabled)", "PATCH", t + "/t2", map[string]any{"id": "t1", "status": "enabled"}},
-		{"update(t1,template p1,V1)", "PATCH", t + "/t1", map[string]any{"template_id": "p1", "vars": V1}},
+		{"update(t1,id t2,disabled)", "PATCH", t + "/t1", map[string]any{"id": "t2", "status": "disabled"}},
+		{"update(t1,template p1,V1)", "PATCH", t + "/t1", map[string]any{"template-id": "p1", "vars": V1}},
 		{"update(t1,vars VBAD)", "PATCH", t + "/t1", map[string]any{"vars": VBAD}},
 		{"update(t1,script BATCHX,enabled)", "PATCH", t + "/t1", map[string]any{"script": BATCHX, "type": "batch", "status": "enabled"}},
 		{"delete(t1)", "DELETE", t + "/t1", nil},
@@ -76,6 +77,10 @@ func ops() []Op {
 		{"template-update(p1,TPL3)", "PATCH", p + "/p1", map[string]any{"script": TPL3}},
 		{"template-update(p1,id p2)", "PATCH", p + "/p1", map[string]any{"id": "p2"}},
 		{"template-delete(p1)", "DELETE", p + "/p1", nil},
+		// a second template whose id has the first one's id as a prefix
+		{"template-create(p1x,TPL1)", "POST", p, map[string]any{"id": "p1x", "type": "stream", "script": TPL1}},
+		{"create(t2,template p1x,V2,disabled)", "POST", t, map[string]any{"id": "t2", "template-id": "p1x", "dbrps": DBRP, "vars": V2, "status": "disabled"}},
+		{"template-update(p1x,TPL2)", "PATCH", p + "/p1x", map[string]any{"script": TPL2}},
 		{"restart", "", "", nil},
 	}
 }
@@ -244,6 +249,30 @@ func (s *sys) observe() (string, map[string]bool) {
 		}
 		lines = append(lines, fmt.Sprintf("task %s type=%v status=%v executing=%v template=%v dbrps=%s vars=%s script=%q", id, t["type"], t["status"], e, t["template-id"], d, v, t["script"]))
 	}
+	// the task master executes nothing the catalogue does not list as enabled
+	for _, id := range []string{"t1", "t2"} {
+		if s.srv.tm.IsExecuting(id) && !exec[id] {
+			lines = append(lines, fmt.Sprintf("task %s: API says executing=false or does not list it, yet the task master is executing a task of that id", id))
+		}
+	}
+	// pagination returns the corresponding slice of the full list
+	if len(tl.Tasks) >= 2 {
+		code, body := s.do("GET", "/kapacitor/v1/tasks", "?script-format=raw&offset=1&limit=5&fields=id", nil)
+		var pg struct {
+			Tasks []map[string]any `json:"tasks"`
+		}
+		json.Unmarshal(body, &pg)
+		var want, got []string
+		for _, t := range tl.Tasks[1:] {
+			want = append(want, fmt.Sprint(t["id"]))
+		}
+		for _, t := range pg.Tasks {
+			got = append(got, fmt.Sprint(t["id"]))
+		}
+		if code != 200 || fmt.Sprint(got) != fmt.Sprint(want) {
+			lines = append(lines, fmt.Sprintf("LIST-PAGE offset=1 limit=5 answered %d %v, the full list from position 1 is %v", code, got, want))
+		}
+	}
 	code, body = s.do("GET", "/kapacitor/v1/templates", "?script-format=raw", nil)
 	if code != 200 {
 		return fmt.Sprintf("LIST-TEMPLATES-FAILED %d %s", code, body), exec
@@ -262,8 +291,24 @@ func (s *sys) observe() (string, map[string]bool) {
 // ---------------------------------------------------------------- running histories
 
 type Case struct {
-	Ops   []int
-	Crash bool // also restart at every transaction boundary of the last operation
+	Ops    []int
+	Crash  bool // also restart at every transaction boundary of the last operation
+	Preset int  // 0: empty catalogue; 1: templates p1 and p1x with one task each (t1 enabled from p1, t2 disabled from p1x)
+}
+
+// preset: operation names executed before the history proper (histories also start from a non-initial state)
+var presets = [][]string{
+	nil,
+	{"template-create(p1,TPL1)", "template-create(p1x,TPL1)", "create(t1,template p1,V1,enabled)", "create(t2,template p1x,V2,disabled)"},
+}
+
+func opIndex(name string) int {
+	for i, o := range ops() {
+		if o.Name == name {
+			return i
+		}
+	}
+	panic("no operation " + name)
 }
 
 type step struct {
@@ -276,6 +321,9 @@ type problem struct{ key, msg string }
 func hist(c Case) string {
 	all := ops()
 	var s []string
+	if c.Preset > 0 {
+		s = append(s, "<preset: "+strings.Join(presets[c.Preset], ", ")+">")
+	}
 	for _, i := range c.Ops {
 		s = append(s, all[i].Name)
 	}
@@ -299,6 +347,9 @@ func afterRestart(state string) string {
 	return strings.Join(out, "\n")
 }
 
+// initialState: what the API shows after the preset, before the first operation of the history
+var initialState = map[int]string{}
+
 func run(t *testing.T, c Case, wantSnaps bool) (steps []step, crashStates []string, snapsOfLast int, p *problem) {
 	all := ops()
 	dir, _ := os.MkdirTemp(kit.TmpDir(), "c14-")
@@ -310,6 +361,17 @@ func run(t *testing.T, c Case, wantSnaps bool) (steps []step, crashStates []stri
 			return
 		}
 		kit.Wait()
+		for _, name := range presets[c.Preset] {
+			o := all[opIndex(name)]
+			if code, body := s.do(o.Method, o.Path, "", o.Body); code >= 300 {
+				p = &problem{"internal", fmt.Sprintf("preset operation %s answered %d %s", name, code, body)}
+				return
+			}
+			kit.Wait()
+		}
+		if _, ok := initialState[c.Preset]; !ok {
+			initialState[c.Preset], _ = s.observe()
+		}
 		for k, oi := range c.Ops {
 			o := all[oi]
 			last := k == len(c.Ops)-1
@@ -412,13 +474,14 @@ func check(t *testing.T, c Case, r *rep.R, cache map[string][]step) []problem {
 		}
 		ps = append(ps, problem{k, m})
 	}
-	prev := ""
+	prev := initialState[c.Preset]
+	templateDeleted := false
 	startFailed := map[string]bool{} // ids whose last start attempt failed and that were not (re)started since
 	for k, st := range steps {
 		o := all[c.Ops[k]]
 		cls := opClass(o.Name)
-		h := hist(Case{Ops: c.Ops[:k+1]})
-		if strings.Contains(st.state, "API says executing") || strings.Contains(st.state, "LIST-") {
+		h := hist(Case{Ops: c.Ops[:k+1], Preset: c.Preset})
+		if strings.Contains(st.state, "API says executing") || strings.Contains(st.state, "LIST-") || strings.Contains(st.state, "the task master is executing") {
 			add("api-inconsistent:"+cls, fmt.Sprintf("after %s:\n%s", h, st.state))
 		}
 		switch {
@@ -463,14 +526,19 @@ func check(t *testing.T, c Case, r *rep.R, cache map[string][]step) []problem {
 			}
 		}
 		// O5: template update all or none
-		if strings.HasPrefix(o.Name, "template-update(p1,TPL") {
+		if strings.HasPrefix(o.Name, "template-delete(p1)") && st.code < 300 {
+			// tasks created from a template keep naming it after it was deleted; a later template of the same id
+			// is a different template and does not adopt them
+			templateDeleted = true
+		}
+		if strings.HasPrefix(o.Name, "template-update(p1,TPL") && !templateDeleted {
 			newScript := TPL2
 			if strings.Contains(o.Name, "TPL3") {
 				newScript = TPL3
 			}
 			nNew, nOld := 0, 0
 			for _, l := range strings.Split(st.state, "\n") {
-				if strings.HasPrefix(l, "task ") && strings.Contains(l, "template=p1") {
+				if strings.HasPrefix(l, "task ") && strings.Contains(l, "template=p1 ") {
 					if strings.Contains(l, fmt.Sprintf("script=%q", newScript)) {
 						nNew++
 					} else {
@@ -481,6 +549,14 @@ func check(t *testing.T, c Case, r *rep.R, cache map[string][]step) []problem {
 			tmplNew := strings.Contains(st.state, fmt.Sprintf("template p1 type=stream script=%q", newScript))
 			if (nNew > 0 && nOld > 0) || (tmplNew && nOld > 0) || (!tmplNew && nNew > 0 && !strings.Contains(prev, fmt.Sprintf("script=%q", newScript))) {
 				add("template-update-partial", fmt.Sprintf("after %s (answered %d): %d tasks of the template have the new script, %d the old one, template updated: %v\n%s", h, st.code, nNew, nOld, tmplNew, st.state))
+			}
+		}
+		// O5b: an operation on template p1 does not touch the tasks of another template (p1x)
+		if strings.HasPrefix(o.Name, "template-") && strings.Contains(o.Name, "(p1,") {
+			for _, l := range strings.Split(prev, "\n") {
+				if strings.HasPrefix(l, "task ") && strings.Contains(l, "template=p1x") && !strings.Contains(st.state, l) {
+					add("other-templates-tasks-changed:"+cls, fmt.Sprintf("after %s the task of template p1x that read\n%s\nis gone or changed:\n%s", h, l, st.state))
+				}
 			}
 		}
 		prev = st.state
@@ -496,11 +572,11 @@ func check(t *testing.T, c Case, r *rep.R, cache map[string][]step) []problem {
 		var without []int
 		without = append(without, c.Ops[:k]...)
 		without = append(without, c.Ops[k+1:]...)
-		key := fmt.Sprint(without)
+		key := fmt.Sprint(c.Preset, without)
 		ws, ok := cache[key]
 		if !ok {
 			var p2 *problem
-			ws, _, _, p2 = run(t, Case{Ops: without}, false)
+			ws, _, _, p2 = run(t, Case{Ops: without, Preset: c.Preset}, false)
 			if p2 != nil {
 				continue
 			}
@@ -515,7 +591,7 @@ func check(t *testing.T, c Case, r *rep.R, cache map[string][]step) []problem {
 	}
 	// O7: a crash inside the last operation leaves the state before it or the state after it
 	if c.Crash && len(steps) > 0 {
-		before := ""
+		before := initialState[c.Preset]
 		if len(steps) > 1 {
 			before = steps[len(steps)-2].state
 		}
@@ -535,7 +611,7 @@ func check(t *testing.T, c Case, r *rep.R, cache map[string][]step) []problem {
 func TestCheck(t *testing.T) {
 	defer kit.CleanupTmp()
 	r := rep.New("C14", "model_checking",
-		"task catalogue on the real task_store service (real handlers invoked through their registered routes, real Bolt file, real TaskMaster): EVERY history up to the depth bound over 26 API operations on two task ids and one template (create enabled/disabled, with a bad script, with a batch script whose start fails, from a template with good/ill-typed vars; update of script, status, id (rename, also onto an existing id), template, vars; delete; template create/update (one update fails on the tasks lacking a variable)/rename/delete; clean restart). After every operation the API's view (task list and template list, raw scripts) is read back. Oracles: a rejected request leaves the view unchanged and has no hidden effect (the rest of the history ends as it does without the request); an accepted delete/create has its effect; executing (API and TaskMaster agree) iff enabled and startable; a clean restart changes nothing but brings enabled tasks back; a template update changes all of its tasks or none. For every history up to a smaller depth, the Bolt file is copied before and after every storage transaction of the last operation and a fresh service is started on every copy: the view must equal the state before or after that operation. states = histories, transitions = operations")
+		"task catalogue on the real task_store service (real handlers invoked through their registered routes, real Bolt file, real TaskMaster): EVERY history up to the depth bound, from the empty catalogue and from a preset catalogue (two templates whose ids are in a prefix relation, one task each), over 30 API operations on two task ids and two templates (create enabled/disabled, with a bad script, with a batch script whose start fails, from a template with good/ill-typed vars; update of script, status, id (rename, also onto an existing id), template, vars; delete; template create/update (one update fails on the tasks lacking a variable)/rename/delete; clean restart). After every operation the API's view (task list and template list, raw scripts) is read back. Oracles: a rejected request leaves the view unchanged and has no hidden effect (the rest of the history ends as it does without the request); an accepted delete/create has its effect; executing (API and TaskMaster agree, and the TaskMaster executes nothing the catalogue does not list) iff enabled and startable; a paged listing equals the slice of the full listing; an operation on one template leaves the tasks of the other alone; a clean restart changes nothing but brings enabled tasks back; a template update changes all of its tasks or none. For every history up to a smaller depth, the Bolt file is copied before and after every storage transaction of the last operation and a fresh service is started on every copy: the view must equal the state before or after that operation. states = histories, transitions = operations")
 	defer r.Write()
 	r.Assumption("an enabled task whose start fails stays stored (enabled, not executing) although the request is answered 500: documented exception to 'no trace'")
 	r.Assumption("bbolt commit atomicity is trusted")
@@ -572,11 +648,18 @@ func TestCheck(t *testing.T) {
 				}
 				// maximal histories and (for the crash enumeration) the shorter ones
 				if len(h) == depth || len(h) <= crashDepth {
-					c := Case{Ops: append([]int(nil), h...), Crash: len(h) <= crashDepth}
-					r.Add("states", 1)
-					for _, p := range check(t, c, r, cache) {
-						r.Violation(p.key, p.msg, c)
+					for preset := range presets {
+						c := Case{Ops: append([]int(nil), h...), Crash: len(h) <= crashDepth && preset == 0, Preset: preset}
+						// from the preset catalogue: all histories one step shorter than the depth bound
+						if preset > 0 && len(h) != depth-1 {
+							continue
+						}
+						r.Add("states", 1)
+						for _, p := range check(t, c, r, cache) {
+							r.Violation(p.key, p.msg, c)
+						}
 					}
+					c := Case{Ops: append([]int(nil), h...)}
 					if r.WantSample() && n%2003 == 7 {
 						r.Sample(map[string]any{"history": hist(c)})
 					}
